@@ -20,6 +20,7 @@ EXPLANATION = (
 ASSUMPTIONS = ['tensor layout (condition, channel, repetition) as returned by Dataset.get_measurements_tensor',
                'the channel axis is axis 1 in every layout handled by _check_demean']
 FLOOR = 40
+ANALYSED_FLOORS = {'order_obligations': 1}   # means[inverse] in cov_from_unbalanced
 RULE_FLOORS = {'POLY': 3, 'PAR': 6, 'FWD': 9}
 
 N = 'data.noise.'
@@ -32,8 +33,7 @@ def _leaf(fn):
 def run(ctx, obs):
     from ..rules import order as _order
     _order.contracts(ctx, obs, ['data.computations.average_dataset_by'])
-    if _order.report(ctx, obs, ['data.noise.']) < 1:
-        raise AnalysisError('C14: the means[inverse] obligation of cov_from_unbalanced was not found')
+    obs.analysed['order_obligations'] = _order.report(ctx, obs, ['data.noise.'])
     from ..rules import sweeps
     sweeps.run(ctx, obs, 'C14')
     dof_polynomials(ctx, obs)
